@@ -1,3 +1,191 @@
 package sctp
 
-func c16EndToEnd(j *Job) {}
+import (
+	"crypto/sha1"
+	"encoding/hex"
+	"fmt"
+	"sort"
+	"strings"
+)
+
+// C16 end to end: the same workload over the same network behaviour at shifted initial
+// TSNs and shifted SSN/MID start values must give the same normalised history.
+
+type shiftCfg struct {
+	tsnA, tsnB uint32
+	ssn        uint16
+	mid        uint32
+}
+
+func normChunk(c *wChunk, initSelf, initPeer uint32, sh shiftCfg) string {
+	switch c.Typ {
+	case wDATA:
+		return fmt.Sprintf("DATA t%d s%d n%d p%d %s l%d", int32(c.TSN-initSelf), c.SID, int16(c.SSN-sh.ssn), c.PPI, flagStr(c), len(c.Data))
+	case wIDATA:
+		return fmt.Sprintf("IDATA t%d s%d m%d f%d p%d %s l%d", int32(c.TSN-initSelf), c.SID, int32(c.MID-sh.mid), c.FSN, c.PPI, flagStr(c), len(c.Data))
+	case wSACK:
+		var d []int32
+		for _, x := range c.Dups {
+			d = append(d, int32(x-initPeer))
+		}
+		return fmt.Sprintf("SACK c%d w%d g%v d%v", int32(c.CumAck-initPeer), c.ARwnd, c.Gaps, d)
+	case wFWDTSN:
+		var ss []string
+		for _, s := range c.Streams {
+			ss = append(ss, fmt.Sprintf("%d:%d", s.SID, int16(s.SSN-sh.ssn)))
+		}
+		sort.Strings(ss)
+		return fmt.Sprintf("FWD c%d %v", int32(c.NewCum-initSelf), ss)
+	case wIFWDTSN:
+		var ss []string
+		for _, s := range c.Streams {
+			ss = append(ss, fmt.Sprintf("%d:%v:%d", s.SID, s.Unordered, int32(s.MID-sh.mid)))
+		}
+		sort.Strings(ss)
+		return fmt.Sprintf("IFWD c%d %v", int32(c.NewCum-initSelf), ss)
+	case wSHUTDOWN:
+		return fmt.Sprintf("SHUTDOWN c%d", int32(c.CumAck-initPeer))
+	case wRECONFIG:
+		var ps []string
+		for _, p := range c.Params {
+			switch {
+			case p.Typ == 13 && len(p.Val) >= 12:
+				ps = append(ps, fmt.Sprintf("req r%d l%d %x", int32(be32(p.Val)-initSelf), int32(be32(p.Val[8:])-initSelf), p.Val[12:]))
+			case p.Typ == 16 && len(p.Val) >= 8:
+				ps = append(ps, fmt.Sprintf("resp r%d =%d", int32(be32(p.Val)-initPeer), be32(p.Val[4:])))
+			}
+		}
+		return "RECONFIG " + strings.Join(ps, ",")
+	case wINIT, wINITACK:
+		return wTypeName(c.Typ)
+	}
+	return wTypeName(c.Typ)
+}
+
+func normHistory(x *Exec, sh shiftCfg) []string {
+	init := [2]uint32{sh.tsnA, sh.tsnB}
+	var out []string
+	for _, ev := range x.Events {
+		if ev.Pkt.dec == nil {
+			out = append(out, fmt.Sprintf("%v %s %d undecodable", ev.At, ev.Kind, ev.From))
+			continue
+		}
+		var cs []string
+		for i := range ev.Pkt.dec.Chunks {
+			cs = append(cs, normChunk(&ev.Pkt.dec.Chunks[i], init[ev.From], init[1-ev.From], sh))
+		}
+		out = append(out, fmt.Sprintf("%v %s %d [%s]", ev.At, ev.Kind, ev.From, strings.Join(cs, " + ")))
+	}
+	for _, h := range x.Hist {
+		out = append(out, fmt.Sprintf("%v %s %s -> %s", h.At, h.Thread, h.Call, h.Result))
+	}
+	return out
+}
+
+func c16Family(j *Job) []xferCase {
+	modes := stdModes()
+	var cases []xferCase
+	k := 1
+	cases = append(cases, famW1(modes, []uint32{0}, k)...)
+	for _, c := range famW5(modes, 1) {
+		cases = append(cases, c)
+	}
+	for _, mode := range modes[:2] {
+		// kill scenario with abandoned messages (FORWARD-TSN paths)
+		mtu := uint32(100)
+		il := !mode.A.NoInterleave
+		P := int(maxPayloadSizeForMTU(mtu, il))
+		spec := &xferSpec{A: withBase(mode.A, mtu, 0, 4000), B: withBase(mode.B, mtu, 0, 4000), Faults: faultSet{Drop: true, Late: true}, Interleave: true,
+			Streams: []streamSpec{
+				{SID: 1, From: 0, RelType: ReliabilityTypeRexmit, RelVal: 0, Msgs: []msgSpec{{Size: 20, PPI: 53}, {Size: 2*P + 3, PPI: 53}, {Size: 22, PPI: 53}}},
+				{SID: 2, From: 0, Msgs: []msgSpec{{Size: P + 3, PPI: 53}, {Size: 30, PPI: 53}}},
+				{SID: 12, From: 1, Unordered: true, Msgs: []msgSpec{{Size: 2*P + 1, PPI: 51}, {Size: 9, PPI: 51}}},
+			},
+			Kill: []killRule{{SID: 1, Msg: 1, Frag: 1, N: 1}}}
+		cases = append(cases, xferCase{Name: "KILL/" + mode.Name, K: 1, Spec: spec})
+	}
+	return cases
+}
+
+func c16EndToEnd(j *Job) {
+	if !j.mine(5) && false {
+		return
+	}
+	cases := c16Family(j)
+	ref := shiftCfg{tsnA: 1000, tsnB: 70000}
+	var shifts []shiftCfg
+	// every offset up to 80 on the sending side, fault free; a few with faults, on one side and on both
+	for off := uint32(0); off <= 80; off++ {
+		shifts = append(shifts, shiftCfg{tsnA: uint32(0) - off, tsnB: 70000, ssn: 0, mid: 0})
+	}
+	faulty := []shiftCfg{
+		{tsnA: 0xFFFFFFFF, tsnB: 70000}, {tsnA: 0xFFFFFFFE, tsnB: 0xFFFFFFFD}, {tsnA: 0xFFFFFFFA, tsnB: 0xFFFFFFF6, ssn: 65533, mid: 0xFFFFFFFD},
+		{tsnA: 0xFFFFFFF4, tsnB: 1000, ssn: 65535, mid: 0xFFFFFFFF}, {tsnA: 1000, tsnB: 70000, ssn: 65534, mid: 0xFFFFFFFE}, {tsnA: 0x7FFFFFFE, tsnB: 0x80000000, ssn: 32766, mid: 0x7FFFFFFE},
+	}
+	for _, c := range cases {
+		base := c.Spec
+		refHist := map[string]string{}
+		refFull := map[string][]string{}
+		run := func(sh shiftCfg, k int, isRef bool, label string) {
+			spec := *base
+			spec.A.InitTSN, spec.B.InitTSN = sh.tsnA, sh.tsnB
+			spec.PreOpen, spec.SSNStart, spec.MIDStart = true, sh.ssn, sh.mid
+			spec.Final = func(m *Sim, x *Exec, r *xferResult) {
+				generalVerdicts(m, x, false)
+				m.Observe("%s", deliverySummary(&spec, r))
+			}
+			res := &xferResult{}
+			classify := func(x *Exec) string {
+				h := normHistory(x, sh)
+				sum := sha1.Sum([]byte(strings.Join(h, "\n")))
+				key := fmt.Sprint(x.Prefix)
+				hs := hex.EncodeToString(sum[:8])
+				if isRef {
+					refHist[key] = hs
+					if len(x.Prefix) <= 1 {
+						refFull[key] = h
+					}
+					return hs
+				}
+				want, ok := refHist[key]
+				if !ok {
+					j.failSeq("shift.shape", c.Name+"/"+label, fmt.Sprintf("%s: choice prefix %v does not exist in the unshifted run (the execution tree has a different shape)", label, x.Prefix), nil)
+				} else if want != hs {
+					diff := ""
+					if rf, ok := refFull[key]; ok {
+						for i := 0; i < len(rf) && i < len(h); i++ {
+							if rf[i] != h[i] {
+								diff = fmt.Sprintf("first difference at line %d:\n  unshifted: %s\n  shifted:   %s", i, rf[i], h[i])
+								break
+							}
+						}
+						if diff == "" {
+							diff = fmt.Sprintf("histories have %d vs %d lines", len(rf), len(h))
+						}
+					}
+					j.failSeq("shift.history", c.Name+"/"+label, fmt.Sprintf("%s prefix %v: normalised history differs from the unshifted run. %s", label, x.Prefix, diff), nil)
+				}
+				return hs
+			}
+			// differential runs must not be sharded by branch (the reference map is per process): shard by case
+			saveShard, saveN := j.Shard, j.NShards
+			j.Shard, j.NShards = 0, 1
+			j.Explore(c.Name+"/"+label, xferScenario(&spec, res), Budget{K: k}, classify)
+			j.Shard, j.NShards = saveShard, saveN
+		}
+		j.caseNo++
+		if !j.mine(j.caseNo) {
+			continue
+		}
+		run(ref, c.K, true, "ref")
+		for _, sh := range shifts {
+			run(sh, 0, false, fmt.Sprintf("tsnA=2^32-%d", uint32(0)-sh.tsnA))
+		}
+		for i, sh := range faulty {
+			run(sh, c.K, false, fmt.Sprintf("shift%d", i))
+		}
+		if j.capped() {
+			return
+		}
+	}
+}
